@@ -85,6 +85,7 @@ class Args:
         self.v = {}
         self.snap0 = {}
         self.kw0 = {}  # entry value (has, val) of **kwargs dict parameters
+        self.view_which = {}  # for view receivers: 'nodes' | 'edges'
 
     def __getattr__(self, k):
         if k == "S0":
@@ -641,6 +642,10 @@ class Exec:
         c = self.c
         if ty.startswith("net:"):
             return self.new_net(ty[4:], name)
+        if ty.startswith("view:"):
+            # the receiver of a view method: an unfiltered node / edge view of a symbolic network (`_ids is _id_dict`)
+            _, which, kind = ty.split(":")
+            return VView(self.new_net(kind, name), which)
         if ty == "val":
             return VVal(c.val(c.fresh(name, c.Id)))
         if ty == "str":
@@ -709,7 +714,7 @@ class Exec:
                 args[k] = {"int": ev(v.term).as_long()}
             elif isinstance(v, VAttr):
                 args[k] = {"attr": setv(v._has)}
-            elif isinstance(v, VNet):
+            elif isinstance(v, (VNet, VView)):
                 args[k] = {"net": k}
         out["args"] = args
         return out
@@ -764,6 +769,9 @@ class Exec:
             A.v[name] = v
             if isinstance(v, VNet):
                 nets[name] = v
+            elif isinstance(v, VView):
+                nets[name] = v.net
+                A.view_which[name] = v.which
         for k, n in nets.items():
             A.snap0[k] = Snap(n)
         for k, v in A.v.items():
@@ -1738,6 +1746,12 @@ class Exec:
                 r = c.one_shot(b.term)  # iter(x) is x exactly for iterators (one-shot iterables)
             elif isinstance(a, (VSet, VDict, VList, VAttr)) and isinstance(b, VVal):
                 r = z3.BoolVal(False)
+            elif isinstance(a, VVal) and isinstance(b, VBuiltin) and b.name in ("dict", "list", "set", "tuple"):
+                # `dtype is dict`: identity with a builtin class, an uninterpreted predicate on the value (distinct classes exclude each other)
+                r = z3.Function("is_class_" + b.name, c.Id, z3.BoolSort())(c.val(a.term))
+                for other in ("dict", "list", "set", "tuple"):
+                    if other != b.name:
+                        self.assume(z3.Not(z3.And(r, z3.Function("is_class_" + other, c.Id, z3.BoolSort())(a.term))))
             else:
                 raise Unsupported("`is` on non-None")
             return r if isinstance(op, ast.Is) else z3.Not(r)
@@ -1836,6 +1850,8 @@ class Exec:
         obj = self.ev(e.value, env)
         return self.getattr(obj, e.attr)
 
+    VIEW_FIELDS = ("_id_dict", "_ids", "_bi_id_dict", "_id_attr", "_bi_id_attr", "_net")
+
     def getattr(self, obj, name):
         c = self.c
         if isinstance(obj, VNet):
@@ -1862,6 +1878,18 @@ class Exec:
             if name == "is_frozen":
                 return VBool(obj.frozen_flag)
             return VBound(obj, name)
+        if isinstance(obj, VView) and name in self.VIEW_FIELDS:
+            # fields installed by IDView.__init__ (aliases of the network's tables; the whole-network view has `_ids is _id_dict`)
+            own, other = ("_node", "_edge") if obj.which == "nodes" else ("_edge", "_node")
+            if name in ("_id_dict", "_ids"):
+                return obj.net.f[own]
+            if name == "_bi_id_dict":
+                return obj.net.f[other]
+            if name == "_id_attr":
+                return obj.net.f[own + "_attr"]
+            if name == "_bi_id_attr":
+                return obj.net.f[other + "_attr"]
+            return obj.net
         if isinstance(obj, VModule):
             return VBuiltin(obj.name + "." + name)
         if isinstance(obj, VBuiltin) and obj.name == "dict" and name in ("__getitem__", "__setitem__", "__delitem__"):
